@@ -145,11 +145,22 @@ impl<'a> Runner<'a> {
     }
     /// each case: a reference (intra) picture followed by pictures to check
     pub fn run(&self, label: &str, cases: &[Vec<Pic>]) {
+        self.run_opt(label, cases, None)
+    }
+    /// `may_refuse`: an error kind with which the last picture of a case may be refused
+    pub fn run_opt(&self, label: &str, cases: &[Vec<Pic>], may_refuse: Option<&str>) {
+        let refused = AtomicU64::new(0);
         cases.par_iter().for_each(|seq| {
             let mut d = Dec::for_hdr(&seq[0].hdr);
             let mut st = CmpStats::default();
-            for p in seq {
+            for (i, p) in seq.iter().enumerate() {
                 if let Err(f) = d.step(p, self.prop, &mut st) {
+                    if let Some(kind) = may_refuse {
+                        if i + 1 == seq.len() && f.sig.ends_with(&format!("valid-picture-rejected-{kind}")) {
+                            refused.fetch_add(1, Ordering::Relaxed);
+                            break;
+                        }
+                    }
                     self.rep.violation(&f.sig, format!("[{label}] {}", f.what), d.replay(label));
                     break;
                 }
@@ -161,6 +172,9 @@ impl<'a> Runner<'a> {
         self.rep.add_transitions(n);
         self.rep.add_states(cases.len() as u64);
         self.rep.extra_add(&format!("sequences_{label}"), cases.len() as u64);
+        if may_refuse.is_some() {
+            self.rep.extra_add(&format!("refused_{label}"), refused.load(Ordering::Relaxed));
+        }
     }
     pub fn finish(&self) {
         self.rep.extra("samples_compared", json!(self.samples.load(Ordering::Relaxed)));
@@ -493,9 +507,89 @@ pub fn run_c03(tier: Tier) -> Report {
     }
     r.run("large-pictures", &cases);
 
+    // ---- the same picture size signalled in different ways by the reference and the predicted
+    // picture (size code, 8-bit and 16-bit explicit size; source format in PTYPE or OPPTYPE, custom
+    // format with each pixel aspect ratio): all ordered pairs of forms, P and D
+    let mut cases = vec![];
+    let mut lenient = vec![];
+    {
+        let mixed = |n: usize| -> Vec<Spec> { (0..n).map(|i| match i % 7 { 0 | 4 => Spec::NotCoded, 2 => Spec::Intra, 5 => Spec::Inter4V([VECS[i % 8], VECS[(i + 1) % 8], VECS[(i + 2) % 8], VECS[(i + 5) % 8]], false), _ => Spec::Inter(VECS[(i / 2) % 8], i % 3 == 0) }).collect() };
+        for code in 2..=6u8 {
+            let (w, h) = SSize::Code(code).dims().unwrap();
+            if (w, h) == (352, 288) && !tier.thorough() {
+                continue;
+            }
+            let mut forms = vec![SSize::Code(code), SSize::Custom16(w, h)];
+            if w < 256 && h < 256 {
+                forms.push(SSize::Custom8(w as u8, h as u8));
+            }
+            let (mbw, mbh) = mb_grid(w, h);
+            for fa in &forms {
+                for fb in &forms {
+                    for pt in [1u8, 2] {
+                        let mut reference = noise_intra(shdr(w, h, 0, 0, 6, 0), seed);
+                        if let Hdr::S(hh) = &mut reference.hdr {
+                            hh.size = fa.clone();
+                        }
+                        let mut p = Pic { hdr: Hdr::S(SHdr { version: 0, tr: 1, size: fb.clone(), ptype: pt, deblock: false, q: 6, pei: vec![] }), mbs: mbs_for(&mixed(mbw * mbh), mbw, false, true) };
+                        fix_last_flags(&mut p);
+                        cases.push(vec![reference, p]);
+                    }
+                }
+            }
+        }
+        // standard mode: format codes 1..3 (thorough: 4) in PTYPE, in OPPTYPE, or as a custom format
+        for fmt in 1..=(if tier.thorough() { 4u8 } else { 2 }) {
+            let (w, h) = [(128u16, 96u16), (176, 144), (352, 288), (704, 576)][fmt as usize - 1];
+            let (mbw, mbh) = mb_grid(w, h);
+            let mut forms: Vec<StdHdr> = vec![StdHdr::baseline(fmt, false, 0, 6)];
+            let mut opp = StdHdr::custom(w, h, false, 0, 6);
+            opp.plus.as_mut().unwrap().opp.srcfmt = fmt;
+            forms.push(opp);
+            for par in 1..=5u8 {
+                let mut c = StdHdr::custom(w, h, false, 0, 6);
+                c.plus.as_mut().unwrap().cpfmt.par = par;
+                forms.push(c);
+            }
+            let mut e = StdHdr::custom(w, h, false, 0, 6);
+            e.plus.as_mut().unwrap().cpfmt.par = 15;
+            e.plus.as_mut().unwrap().cpfmt.epar = (12, 11);
+            forms.push(e);
+            for (ia, fa) in forms.iter().enumerate() {
+                for (ib, fb) in forms.iter().enumerate() {
+                    // The header parser documents picture-format changes in standard mode as
+                    // unimplemented and takes any difference between the two headers' format
+                    // fields for one (aspect ratio included), so only pairs that name the same
+                    // format value must decode; the others may be refused as unimplemented, and if
+                    // they are accepted they must be exact.
+                    let same_value = ia == ib || (ia < 2 && ib < 2);
+                    let mut reference = noise_intra(Hdr::Std(fa.clone()), seed);
+                    reference.hdr = Hdr::Std(fa.clone());
+                    let mut hb = fb.clone();
+                    hb.inter = true;
+                    hb.tr = 1;
+                    if let Some(pl) = hb.plus.as_mut() {
+                        pl.mpp_type = 1;
+                    }
+                    let mut p = Pic { hdr: Hdr::Std(hb), mbs: mbs_for(&mixed(mbw * mbh), mbw, false, true) };
+                    fix_last_flags(&mut p);
+                    if same_value {
+                        cases.push(vec![reference, p]);
+                    } else {
+                        lenient.push(vec![reference, p]);
+                    }
+                }
+            }
+        }
+    }
+    r.run("same-size-other-form", &cases);
+    rep.add_nontrivial(cases.len() as u64);
+    r.run_opt("same-size-other-format-value-standard-mode", &lenient, Some("UnimplementedDecoding"));
+    rep.assume("standard mode: a predicted picture whose header names another picture-format value than the previous header (even for the same size) may be refused with UnimplementedDecoding (picture-format changes are documented as unimplemented in the header parser); when accepted it must be exact");
+
     r.finish();
     rep.set_rule(
-        "P/D pictures as syntax trees over LCG-noise reference pictures, decoded by H263State and by the reference decoder (median prediction, wrap, chroma vector, bilinear half-sample, edge clamp, residual add/clip): all 7^n macroblock-kind assignments on 5 grids; every differential (64x64) on single-macroblock pictures of each size class and on the interior macroblock of 48x48 x 3 residual kinds; truncation after every macroblock and at every byte; no-reference rejection; residual clipping; \
+        "P/D pictures as syntax trees over LCG-noise reference pictures, decoded by H263State and by the reference decoder (median prediction, wrap, chroma vector, bilinear half-sample, edge clamp, residual add/clip): all 7^n macroblock-kind assignments on 5 grids; every differential (64x64) on single-macroblock pictures of each size class and on the interior macroblock of 48x48 x 3 residual kinds; truncation after every macroblock and at every byte; no-reference rejection; residual clipping; every ordered pair of ways to signal one picture size between the reference and the predicted picture; \
          non-trivial = sequence whose predicted picture has a non-zero vector or a residual",
     );
     rep.sample(json!({"sweep": "mb-types", "picture": "32x32 [Inter4VQ, NotCoded, IntraQ, Inter] over a noise reference"}));
